@@ -203,7 +203,7 @@ theorem augWalk_sound (X Y : Codec) (Q : Val → Prop) (x y : Frag → Rd.R) (wx
     have hget : Env.get [("label", lv)] "label" = lv := by simp [Env.get, List.lookup]
     rw [hget] at hn
     simp only [flattenAug, extrasAug, get_label, get_node, id] at hq ⊢
-    simp only [Rd.augWalk, Cell.bits, Cell.refs, hl]
+    simp only [Rd.augWalk, Cell.exotic, Bool.false_eq_true, if_false, Cell.bits, Cell.refs, hl]
     unfold ahmNode at hn
     by_cases hle : labelLen lv ≤ n
     · simp only [hle, if_true] at hn
